@@ -44,16 +44,42 @@ def value_programs(tier):
     return out
 
 
+ERR_MSGS = {"empty": "", "plain": "boom", "unicode": "caf\u00e9 \u2603", "long": "m" * 300, "colon": "a: b: c",
+            "none-word": "None", "newline": "l1\nl2"}
+
+
+def error_programs():
+    """Failing operations caught by exception class; the message alphabet includes the empty string."""
+    out = []
+    C = ["CallableRuntimeError", "Boom", "ValueError"]
+    for n, msg in ERR_MSGS.items():
+        for cls in ("Boom", "ValueError"):
+            fail_step = {"k": "try", "catch": C, "body": {"k": "step", "fn": {"raise": cls, "msg": msg}, "retry": "none"}}
+            fail_child = {"k": "try", "catch": C, "body": {"k": "child", "body": [{"k": "step", "fn": {"ret": 1}},
+                                                                                {"k": "raise", "cls": cls, "msg": msg}]}}
+            # tolerated failure: the call waits for both branches, so its result does not depend on timing
+            fail_branch = {"k": "par", "cfg": {"tol_n": 1}, "branches": [
+                [{"k": "step", "fn": {"raise": cls, "msg": msg}, "retry": "none"}], [{"k": "step", "fn": {"ret": 2}}]]}
+            out.append({"name": f"error[{cls};{n}]", "seq": [fail_step, {"k": "wait", "s": 1}, fail_child, {"k": "wait", "s": 1},
+                                                             fail_branch, {"k": "wait", "s": 1}, {"k": "step", "fn": {"ret": "end"}}]})
+    return out
+
+
 def run(ctx):
     units = simcheck.standard_space(ctx.tier)
     cap = 20_000 if ctx.tier == "quick" else 400_000
+    for p in error_programs():
+        units.append(({"program": p, "cfg": {"env_kinds": ["crash"]}},
+                      {"crash": 1, "total": 1} if ctx.tier == "quick" else {"crash": 2, "total": 2}, cap))
     for p in value_programs(ctx.tier):
         units.append(({"program": p, "cfg": {"env_kinds": ["crash", "page"], "page_modes": [0, 1, 4]}},
                       {"crash": 1, "page": 1, "total": 1} if ctx.tier == "quick" else {"crash": 2, "page": 1, "total": 2}, cap))
     return simcheck.run_check(ctx, MOD, units, BOUNDS + "; plus 21 value programs (tuple, nested dict, Decimal, bytes, aware/naive "
                               "datetime, date, UUID, None, bool, ints, signed zero, NaN, empty containers, envelope look-alike, "
                               "2^70) delivered by a step, a child context, wait_for_condition and a parallel branch, each replayed "
-                              "after every suspension and every single crash point")
+                              "after every suspension and every single crash point; 14 error programs (two exception classes x messages "
+                              "{empty, plain, unicode, 300 chars, colons, 'None', multi-line}) failing in a step, a child context and a "
+                              "parallel branch, caught by class and replayed")
 
 
 def replay(rep):
